@@ -43,4 +43,88 @@ def joinRows (height width : Nat) (parts : List (Nat × List Nat)) : List (List 
 def iterFinal {S : Type} (lt : S → S → Bool) (sop0 sop1 : S) (old new : List (List Nat)) : List (List Nat) :=
   if lt sop1 sop0 then old else new
 
+/-! ### the progressive pass along the guide tree (`_merge_alignments`) -/
+
+/-- `alm_lst` (one block per node of the guide tree built so far) and `seq_ord` (which input
+sequence each row of the block belongs to) -/
+structure PState where
+  blocks : List (List (List Nat))
+  ords : List (List Nat)
+  deriving Repr
+
+def progInit (seqs : List (List Nat)) : PState :=
+  ⟨seqs.map ([·]), (List.range seqs.length).map ([·])⟩
+
+/-- one row `(m, n)` of the tree matrix, together with the two aligned index rows (as gap flags)
+that the profile aligner returned for the blocks `m` and `n` -/
+abbrev PStep := (Nat × Nat) × (List Bool × List Bool)
+
+def progStep (gapSym : Nat) (st : PState) (step : PStep) : PState :=
+  let A := st.blocks.getD step.1.1 []
+  let B := st.blocks.getD step.1.2 []
+  { blocks := st.blocks ++ [mergeBlocks gapSym A B step.2.1 step.2.2],
+    ords := st.ords ++ [st.ords.getD step.1.1 [] ++ st.ords.getD step.1.2 []] }
+
+def progRun (gapSym : Nat) (seqs : List (List Nat)) (steps : List PStep) : PState :=
+  steps.foldl (progStep gapSym) (progInit seqs)
+
+/-- `sorted(alm_lst, key=…seq_ord[-1]…)`: stable sort of the rows by the index of their sequence -/
+def reorder (ord : List Nat) (block : List (List Nat)) : List (List Nat) :=
+  ((ord.zip block).mergeSort fun a b => decide (a.1 ≤ b.1)).map (·.2)
+
+/-- `_alm_matrix` after `_merge_alignments` -/
+def progressive (gapSym : Nat) (seqs : List (List Nat)) (steps : List PStep) : List (List Nat) :=
+  let st := progRun gapSym seqs steps
+  reorder (st.ords.getLast?.getD []) (st.blocks.getLast?.getD [])
+
+/-! ### one refinement split (`_split`, `_align_profile(iterate=True)`, `_join`) -/
+
+/-- rows `idxA` against the rest: reduce the gap sites of both parts, merge them along the profile
+alignment, put every row back to its index -/
+def refineSplit (gapSym : Nat) (msa : List (List Nat)) (idxA : List Nat) (flagsA flagsB : List Bool) : List (List Nat) :=
+  let idxB := (List.range msa.length).filter fun i => !idxA.contains i
+  let partA := reduceGapSites gapSym (idxA.map fun i => msa.getD i [])
+  let partB := reduceGapSites gapSym (idxB.map fun i => msa.getD i [])
+  let merged := mergeBlocks gapSym partA partB flagsA flagsB
+  let width := (merged.headD []).length
+  joinRows msa.length width ((idxA ++ idxB).zip merged)
+
+/-! ### decidable hypotheses of the C04 theorems (evaluated on the observed runs by the driver) -/
+
+def width (block : List (List Nat)) : Nat := (block.headD []).length
+
+/-- what C01 guarantees about the two index rows returned by a profile aligner -/
+def flagsOkb (A B : List (List Nat)) (fa fb : List Bool) : Bool :=
+  fa.length == fb.length && (fa.filter id).length == width A &&
+    (((fa.zip fb).map fun p => p.2 || !p.1).filter id).length == width B
+
+def stepOkb (st : PState) (step : PStep) : Bool :=
+  decide (step.1.1 < st.blocks.length) && decide (step.1.2 < st.blocks.length) &&
+    flagsOkb (st.blocks.getD step.1.1 []) (st.blocks.getD step.1.2 []) step.2.1 step.2.2
+
+def stepsOkb (g : Nat) : PState → List PStep → Bool
+  | _, [] => true
+  | st, s :: r => stepOkb st s && stepsOkb g (progStep g st s) r
+
+/-- what the profile aligner must return for one refinement split (C01 for the profile aligner) -/
+def splitOkb (g : Nat) (msa : List (List Nat)) (idxA : List Nat) (fa fb : List Bool) : Bool :=
+  let idxB := (List.range msa.length).filter fun i => !idxA.contains i
+  !idxA.isEmpty && idxA.all (fun i => decide (i < msa.length)) &&
+  flagsOkb (reduceGapSites g (idxA.map fun i => msa.getD i [])) (reduceGapSites g (idxB.map fun i => msa.getD i [])) fa fb
+
+/-- a history of refinement splits, each with its own index set and profile alignment -/
+abbrev Split := List Nat × (List Bool × List Bool)
+
+def histOkb (g : Nat) : List (List Nat) → List Split → Bool
+  | _, [] => true
+  | msa, s :: r => splitOkb g msa s.1 s.2.1 s.2.2 && histOkb g (refineSplit g msa s.1 s.2.1 s.2.2) r
+
+
+/-- everything `C04_progressive` assumes about an observed run -/
+def progOkb (gapSym : Nat) (seqs : List (List Nat)) (steps : List PStep) : Bool :=
+  !steps.isEmpty && stepsOkb gapSym (progInit seqs) steps &&
+    ((progRun gapSym seqs steps).ords.getLast?.getD []).isPerm (List.range seqs.length)
+
+def rectb (msa : List (List Nat)) : Bool := msa.all fun r => r.length == width msa
+
 end Verif.MSA
